@@ -219,35 +219,62 @@ Proof.
   induction h as [|[t|t] h IH]; intros d; cbn [last_svc svc_texts]; [reflexivity | | apply IH].
   rewrite IH. symmetry. apply last_cons_default.
 Qed.
-Lemma last_map_ok (l : list str) d : last (map (@Ok str) l) (Ok d) = Ok (last l d).
-Proof. induction l as [|x l IH]; [reflexivity|]. cbn [map last]. destruct l; [reflexivity | exact IH]. Qed.
+Definition delivers (prefix : str) (status : list str) (strict : bool) (o : observation) : bool :=
+  is_ok (observe_config prefix status strict o).
 
-(* the service texts of a delivery history being the watcher's deliveries for the observed
-   snapshots (in order, Model/Consul.v [watch_deliveries]), the last service text is the config
-   of the final registry state *)
-Theorem last_delivery_is_final_state prefix status strict snaps final tf h d :
-  map (@Ok str) (svc_texts h) = watch_deliveries prefix status strict (snaps ++ [final]) ->
-  svc_config prefix status strict (fst final) (snd final) = Ok tf ->
-  last_svc h d = tf.
+Lemma watch_deliveries_app prefix status strict a b :
+  watch_deliveries prefix status strict (a ++ b) =
+  watch_deliveries prefix status strict a ++ watch_deliveries prefix status strict b.
+Proof. unfold watch_deliveries. apply flat_map_app. Qed.
+
+(* a failed round (health query or a catalog lookup fails) delivers nothing: the histories of
+   deliveries with and without it are the same, so the table is not touched by it *)
+Theorem failed_round_delivers_nothing prefix status strict a o b :
+  delivers prefix status strict o = false ->
+  watch_deliveries prefix status strict (a ++ o :: b) = watch_deliveries prefix status strict (a ++ b).
 Proof.
-  intros H Hf. rewrite last_svc_texts.
-  apply (f_equal (fun l => last l (Ok d))) in H. rewrite last_map_ok in H.
-  unfold watch_deliveries in H. rewrite map_app in H. cbn [map] in H. rewrite last_last, Hf in H.
-  now inversion H.
+  intros H. rewrite !watch_deliveries_app. f_equal. unfold watch_deliveries at 1. cbn [flat_map].
+  unfold delivers in H. destruct (observe_config prefix status strict o); [discriminate | reflexivity | reflexivity].
 Qed.
 
-(* quiescence in terms of the registry: once the registry's view stops changing at state
-   [final], the active table is the table of final's config plus the last manual text *)
+Lemma watch_deliveries_all_failed prefix status strict fails :
+  forallb (fun o => negb (delivers prefix status strict o)) fails = true ->
+  watch_deliveries prefix status strict fails = [].
+Proof.
+  induction fails as [|o fails IH]; [reflexivity|]. cbn [forallb]. intros H. apply andb_true_iff in H as [Ho Hf].
+  unfold watch_deliveries. cbn [flat_map]. fold (watch_deliveries prefix status strict fails). rewrite (IH Hf).
+  unfold delivers in Ho. destruct (observe_config prefix status strict o); [discriminate | reflexivity | reflexivity].
+Qed.
+
+(* the service texts of a delivery history being the watcher's deliveries for the observed
+   rounds (in order, Model/Consul.v [watch_deliveries]), the last service text is the config of
+   the last round that succeeded - failed rounds after it change nothing *)
+Theorem last_delivery_is_final_state prefix status strict obs final fails tf h d :
+  svc_texts h = watch_deliveries prefix status strict (obs ++ final :: fails) ->
+  observe_config prefix status strict final = Ok tf ->
+  forallb (fun o => negb (delivers prefix status strict o)) fails = true ->
+  last_svc h d = tf.
+Proof.
+  intros H Hf Hfails. rewrite last_svc_texts, H.
+  change (final :: fails) with ([final] ++ fails). rewrite !watch_deliveries_app.
+  rewrite (watch_deliveries_all_failed _ _ _ fails Hfails), app_nil_r.
+  unfold watch_deliveries at 2. cbn [flat_map]. rewrite Hf. cbn [app]. apply last_last.
+Qed.
+
+(* quiescence in terms of the registry: once the registry's view stops changing at the state
+   observed in round [final] (later rounds, if any, fail), the active table is the table of
+   final's config plus the last manual text *)
 Theorem watch_quiescent_final_state (table : Type) (build : str -> option table)
-        prefix status strict snaps final tf (w : wstate table) h e T :
+        prefix status strict obs final fails tf (w : wstate table) h e T :
   inv table build w ->
-  map (@Ok str) (svc_texts (h ++ [e])) = watch_deliveries prefix status strict (snaps ++ [final]) ->
-  svc_config prefix status strict (fst final) (snd final) = Ok tf ->
+  svc_texts (h ++ [e]) = watch_deliveries prefix status strict (obs ++ final :: fails) ->
+  observe_config prefix status strict final = Ok tf ->
+  forallb (fun o => negb (delivers prefix status strict o)) fails = true ->
   build (next_text tf (last_man (h ++ [e]) (w_man w))) = Some T ->
   w_active (run table build w (h ++ [e])) = T /\ w_first (run table build w (h ++ [e])) = true.
 Proof.
-  intros Hw Hd Hf Hb. apply watch_quiescent; [exact Hw|].
-  now rewrite (last_delivery_is_final_state _ _ _ _ _ _ _ (w_svc w) Hd Hf).
+  intros Hw Hd Hf Hfails Hb. apply watch_quiescent; [exact Hw|].
+  now rewrite (last_delivery_is_final_state _ _ _ _ _ _ _ _ (w_svc w) Hd Hf Hfails).
 Qed.
 
 (* non-vacuity: a concrete builder and a history with an invalid candidate in the middle *)
